@@ -77,6 +77,11 @@ func PipelineFromFile(file string, opts ...PipelineOption) (*Pipeline, error) {
 		if input == nil {
 			return nil, fmt.Errorf("inputs[%d] is empty", i)
 		}
+
+		// an entry describes one input, whether or not its condition lets it be loaded
+		if _, err := input.loader(); err != nil {
+			return nil, fmt.Errorf("inputs[%d]: %w", i, err)
+		}
 	}
 	for i, language := range pipeline.Output.Languages {
 		if language == nil {
